@@ -28,7 +28,7 @@ def gen_cases(rng, n):
 def run_prim(chk, replay=None):
     gate, hb = core.std_setup(chk)
     rng = random.Random(chk.seed)
-    n = 3000 if chk.tier == "quick" else 60000
+    n = 3000 if chk.tier == "quick" else 400000
     have_model = gate is not None and core.os.path.exists(core.RUNNER)
     urt, usk = gen_cases(rng, n)
     failing, mism, dist = [], [], {}
